@@ -11,8 +11,6 @@ import Gotree.Lemmas.C03Ops
 import Gotree.Lemmas.C03More
 import Gotree.Lemmas.C03Text
 import Gotree.Model.C01
-import Gotree.Gen.C03Source
-import Gotree.Lemmas.C03Source
 
 namespace Gotree.C03
 open Gotree
@@ -218,6 +216,175 @@ theorem unquoted_metachar_name_fails :
     textWF Gotree.Newick.goCodec witnessMetaName = false ∧ hasMetaName witnessMetaName = true ∧
     textProblems witnessMetaName (Gotree.Newick.writeStr Gotree.Newick.goCodec witnessMetaName) ≠ [] := by
   decide +kernel
+
+/-! ### CollapseClade (model `collapseClade` over `lcaT` = LeastCommonAncestorRecur, tied exactly) -/
+
+/-- a successful `CollapseClade` replaces exactly ONE node, which is not the root, by a tip carrying the
+    given name (on the same branch, at the same position among its parent's children) and touches nothing
+    else; which node: the one `lcaT` (LeastCommonAncestorRecur) finds for the given names that exist -/
+theorem collapseClade_ok (strict : Bool) (name : String) (tips : List String) (t t' : T)
+    (h : collapseClade strict name tips t = .ok t') :
+    ∃ p r, p ≠ [] ∧ lcaT ((tips.filter fun x => x != "" && t.nodeNames.contains x).eraseDups) false [] t = .ok r ∧
+      r.found = some p ∧ (strict = true → r.diff = 0) ∧ t' = modAt (fun _ _ => T.leaf name) true p t := by
+  unfold collapseClade at h
+  split at h
+  · cases h
+  · simp only at h
+    split at h
+    · cases h
+    · split at h
+      · cases h
+      · rename_i r hr
+        split at h
+        · cases h
+        · rename_i p hp
+          split at h
+          · cases h
+          · split at h
+            · cases h
+            · rename_i h1 h2
+              simp only [Gotree.C05.Res.ok.injEq] at h
+              refine ⟨p, r, ?_, hr, hp, ?_, h.symm⟩
+              · intro hpe; subst hpe; simp at h2
+              · intro hs; subst hs
+                simpa using h1
+
+/-! ### Annotate (model `annotate`: the index built once, `lcaT` on the current names; tied exactly) -/
+
+/-- `Annotate(lines, comment = true)`: a successful call leaves the tip names (as a multiset) and the absence
+    of single-child nodes as they were — it only appends comments, at the nodes found by name or by `lcaT`.
+    (In renaming mode tips may be renamed and the tip index is left stale; the driver then compares the
+    model's tree exactly and treats the index as out of date, `indexInSync`.) -/
+theorem annotate_comment_inv (lines : List (List String)) (t t' : T) (h : annotate true lines t = .ok t') :
+    t'.tipNames.Perm t.tipNames ∧ t'.noSingle = t.noSingle := by
+  unfold annotate at h
+  split at h
+  · cases h
+  · exact annotateLoop_comment_inv t lines t t' h
+
+/-! ### AddBipartition (model `addBipAt`, tied exactly on every generated case) -/
+
+/-- the refusal clause of `AddBipartition`: fewer than two branches, or all but at most one of the
+    node's branches ("the bipartition already exists") -/
+theorem addBip_refuses (isRoot : Bool) (S : List Nat) (len sup : Rat) (t : T)
+    (h : S.length ≤ 1 ∨ t.kids.length + (if isRoot then 0 else 1) ≤ S.length + 1) :
+    (match addBipNode isRoot S len sup t with | .err => true | _ => false) = true := by
+  obtain ⟨d, p, k⟩ := t
+  have hl : (if isRoot then k.map some else Gotree.C05.insertAt (k.map some) p (none : Option (EdgeD × T))).length =
+      k.length + (if isRoot then 0 else 1) := by
+    cases isRoot <;> simp [insertAt_length]
+  simp only [T.kids_node] at h
+  simp only [addBipNode]
+  rw [if_pos]
+  simp only [hl, decide_eq_true_eq, Bool.or_eq_true]
+  rcases h with h | h
+  · exact Or.inl h
+  · exact Or.inr h
+
+
+/-- ★ what `AddBipartition` computes at its node: the children are split into those that stay (`A`) and
+    those grouped below the new node (`B`, re-attached by fresh branches that keep length, support and
+    p-value, each with its parent as last neighbour); either the new node hangs below n as its last child
+    (`inner`), or — the parent's branch being among the selected ones — n hangs below the new node as ITS last
+    child (`outer`).  Nothing is lost and nothing is duplicated: `A ++ B` is a permutation of the children. -/
+theorem addBip_node_spec (isRoot : Bool) (S : List Nat) (len sup : Rat) (d : NodeD) (p : Nat) (k : Kids)
+    (hnd : S.Nodup) :
+    match addBipNode isRoot S len sup (.node d p k) with
+    | .err => True
+    | .inner n' => ∃ (A B : Kids) (pp m : Nat), (A ++ B).Perm k ∧
+        n' = .node d pp (A ++ [(⟨len, sup, NIL, [], -1⟩,
+          .node ⟨"", []⟩ m (B.map fun ec => (freshE ec.1, reparent ec.2)))])
+    | .outer n2 => ∃ (A B : Kids) (pp : Nat), (A ++ B).Perm k ∧
+        n2 = .node ⟨"", []⟩ pp ((B.map fun ec => (freshE ec.1, reparent ec.2)) ++
+          [(⟨len, sup, NIL, [], -1⟩, .node d A.length A)]) := by
+  have key : ∀ sel, S.mapM (fun i => (if isRoot then k.map some else Gotree.C05.insertAt (k.map some) p (none : Option (EdgeD × T)))[i]?) = some sel →
+      ((dropSlots S 0 (if isRoot then k.map some else Gotree.C05.insertAt (k.map some) p (none : Option (EdgeD × T)))).filterMap id ++
+        sel.filterMap id).Perm k := by
+    intro sel hsel
+    have hk := (pick_drop_perm S _ sel hnd hsel).filterMap id
+    rwa [ng_filterMap, List.filterMap_append] at hk
+  cases hres : addBipNode isRoot S len sup (.node d p k) with
+  | err => trivial
+  | inner n' =>
+    simp only
+    unfold addBipNode at hres
+    cases isRoot <;> simp only [Bool.false_eq_true, if_false, if_true] at hres key <;>
+    · split at hres
+      · cases hres
+      · split at hres
+        · cases hres
+        · rename_i sel hsel
+          split at hres
+          · cases hres
+          · injection hres with hres
+            subst hres
+            exact ⟨_, _, _, _, key sel hsel, rfl⟩
+  | outer n2 =>
+    simp only
+    unfold addBipNode at hres
+    cases isRoot <;> simp only [Bool.false_eq_true, if_false, if_true] at hres key <;>
+    · split at hres
+      · cases hres
+      · split at hres
+        · cases hres
+        · rename_i sel hsel
+          split at hres
+          · injection hres with hres
+            subst hres
+            exact ⟨_, _, _, key sel hsel, rfl⟩
+          · cases hres
+
+/-- ★ `AddBipartition` keeps the tips: for distinct slots, a successful call at any node of any tree leaves
+    the tip names as they were (as a multiset) -/
+theorem addBip_tips (S : List Nat) (len sup : Rat) (p : List Nat) (t t' : T) (hnd : S.Nodup)
+    (h : addBipAt S len sup p t = some t') : t'.tipNames.Perm t.tipNames := by
+  cases p with
+  | nil =>
+    obtain ⟨d, pp, k⟩ := t
+    have hn := addBipNode_leaves true S len sup d pp k hnd
+    simp only [addBipAt] at h
+    split at h
+    · rename_i n' hres
+      rw [hres] at hn
+      simp only [Option.some.injEq] at h; subst h
+      obtain ⟨h1, h2, _, _, h5⟩ := hn
+      obtain ⟨h6, h7⟩ := h5 rfl
+      unfold T.tipNames
+      simp only [T.kids_node, beq_iff_eq, h6, h7, if_false, List.nil_append]
+      exact h1
+    · cases h
+  | cons i q =>
+    obtain ⟨a1, a2, a3⟩ := addBipAt_inv S len sup hnd i q t t' h
+    unfold T.tipNames
+    rw [a3, a2]
+    exact List.Perm.append_left _ a1
+
+/-- `AddBipartition` creates no single-child node (distinct slots) -/
+theorem addBip_noSingle (S : List Nat) (len sup : Rat) (p : List Nat) (t t' : T) (hnd : S.Nodup)
+    (h : addBipAt S len sup p t = some t') (hk : t.noSingle = true) : t'.noSingle = true := by
+  cases p with
+  | nil =>
+    obtain ⟨d, pp, k⟩ := t
+    have hn := addBipNode_ns true S len sup d pp k hnd hk
+    simp only [addBipAt] at h
+    split at h
+    · rename_i n' hres
+      rw [hres] at hn
+      simp only [Option.some.injEq] at h; subst h
+      exact hn.1
+    · cases h
+  | cons i q => exact addBipAt_ns S len sup hnd i q t t' h hk
+
+/-- a node `x` with four children below the root: the two branches of `b c` grouped below `x`; the parent's
+    branch and `d` grouped (the new node takes x's place as the LAST child of the root, x hangs below it);
+    the same with the slots in the other order (order of the new node's children = order of the slots) -/
+def bipEx : T := T.node ⟨"r", []⟩ 0 [(EdgeD.blank, T.leaf "a"),
+  (⟨2, 1/2, NIL, ["c"], 7⟩, T.node ⟨"x", []⟩ 0 [(EdgeD.blank, T.leaf "b"), (EdgeD.blank, T.leaf "c"), (EdgeD.blank, T.leaf "d"), (EdgeD.blank, T.leaf "e")]),
+  (EdgeD.blank, T.leaf "f")]
+
+example : ((addBipAt [1, 2] 1 (3/4) [1] bipEx).map (·.tipNames)) = some ["a", "d", "e", "b", "c", "f"] := by decide +kernel
+example : ((addBipAt [0, 3] 1 (3/4) [1] bipEx).map (·.tipNames)) = some ["a", "f", "d", "b", "c", "e"] := by decide +kernel
+example : ((addBipAt [3, 0] 1 (3/4) [1] bipEx).map (·.nodeNames)) = some ["r", "a", "f", "", "d", "x", "b", "c", "e"] := by decide +kernel
 
 /-! ### histories: the invariant is closed under every composed operation model -/
 
@@ -565,6 +732,30 @@ theorem op_ok (ns : Bool) (op : EditOp) (t t' : T) (h : Inv ns t) (hp : opPre ns
     simp only [applyOp, Gotree.C05.Res.ok.injEq] at ho; subst ho
     obtain ⟨h1, h2⟩ := mapData_inv id (fun _ e => if e.sup != NIL then { e with sup := roundRat e.sup } else e) (fun _ => rfl) t
     exact ⟨by rw [roundSupports0, h1]; exact hu, fun hpr => by rw [roundSupports0, h2]; exact hns hpr⟩
+  | collapseClade strict name tips =>
+    simp only [opPre, Bool.not_eq_true', List.contains_eq_mem, decide_eq_false_iff_not] at hp
+    simp only [applyOp] at ho
+    obtain ⟨p, r, hpne, _, _, _, rfl⟩ := collapseClade_ok strict name tips t t' ho
+    cases p with
+    | nil => exact absurd rfl hpne
+    | cons i q =>
+      obtain ⟨h1, h2⟩ := replaceAt_inv name i q t hu hp
+      exact ⟨h1, fun hpr => h2 (hns hpr)⟩
+  | annotate comment lines =>
+    simp only [opPre] at hp
+    subst hp
+    simp only [applyOp] at ho
+    obtain ⟨h1, h2⟩ := annotate_comment_inv lines t t' ho
+    exact ⟨h1.nodup_iff.mpr hu, fun hpr => by rw [h2]; exact hns hpr⟩
+  | addBip p S l sp =>
+    simp only [opPre, decide_eq_true_eq] at hp
+    simp only [applyOp] at ho
+    cases hb : addBipAt S l sp p t with
+    | none => simp [hb] at ho
+    | some t₂ =>
+      simp only [hb, Gotree.C05.Res.ok.injEq] at ho
+      subst ho
+      exact ⟨(addBip_tips S l sp p t _ hp hb).nodup_iff.mpr hu, fun hpr => addBip_noSingle S l sp p t _ hp hb (hns hpr)⟩
   | reinit =>
     simp only [applyOp, reinit] at ho
     split at ho
@@ -652,7 +843,8 @@ example :
               .reinit, .clone, .removeSingle, .clearLengths true false, .clearSupports, .clearComments,
               .scaleLengths (3/4) true true, .roundLengths0 true true, .rotateOne [1] [0, 0, 1, 2], .rotateOne [] [0, 0],
               .addLength (1/2) true false, .clearPvalues, .clearNodeComments, .clearEdgeComments, .clearTermEdgeComments,
-              .scaleSupports (1/2), .roundSupports0] : List EditOp),
+              .scaleSupports (1/2), .roundSupports0, .collapseClade true "cc" ["d", "e"], .annotate true [["k", "a"], ["l", "g", "h"]],
+              .addBip [1] [1, 3] 1 (1/2), .addBip [1] [0, 2] 1 (1/2)] : List EditOp),
       opPre true op exHist = true ∧ (match applyOp op exHist with | .ok t => InvB (promised true op exHist) t | _ => false) = true) := by
   decide +kernel
 
@@ -668,180 +860,5 @@ example : InvB true exHist = true ∧ preAll true exHist exOps = true ∧
 example : (nodes witness18).length = 18 ∧ (edges witness18).length = 17 ∧
     (internalEdges witness18).length = 7 ∧ (tipEdges witness18).length = 10 ∧ (tips witness18).length = 10 := by
   decide
-
-/-! ### CollapseClade (model `collapseClade` over `lcaT` = LeastCommonAncestorRecur, tied exactly) -/
-
-/-- a successful `CollapseClade` replaces exactly ONE node, which is not the root, by a tip carrying the
-    given name (on the same branch, at the same position among its parent's children) and touches nothing
-    else; which node: the one `lcaT` (LeastCommonAncestorRecur) finds for the given names that exist -/
-theorem collapseClade_ok (strict : Bool) (name : String) (tips : List String) (t t' : T)
-    (h : collapseClade strict name tips t = .ok t') :
-    ∃ p r, p ≠ [] ∧ lcaT ((tips.filter fun x => x != "" && t.nodeNames.contains x).eraseDups) false [] t = .ok r ∧
-      r.found = some p ∧ (strict = true → r.diff = 0) ∧ t' = modAt (fun _ _ => T.leaf name) true p t := by
-  unfold collapseClade at h
-  split at h
-  · cases h
-  · simp only at h
-    split at h
-    · cases h
-    · split at h
-      · cases h
-      · rename_i r hr
-        split at h
-        · cases h
-        · rename_i p hp
-          split at h
-          · cases h
-          · split at h
-            · cases h
-            · rename_i h1 h2
-              simp only [Gotree.C05.Res.ok.injEq] at h
-              refine ⟨p, r, ?_, hr, hp, ?_, h.symm⟩
-              · intro hpe; subst hpe; simp at h2
-              · intro hs; subst hs
-                simpa using h1
-
-/-! ### Annotate (model `annotate`: the index built once, `lcaT` on the current names; tied exactly) -/
-
-/-- `Annotate(lines, comment = true)`: a successful call leaves the tip names (as a multiset) and the absence
-    of single-child nodes as they were — it only appends comments, at the nodes found by name or by `lcaT`.
-    (In renaming mode tips may be renamed and the tip index is left stale; the driver then compares the
-    model's tree exactly and treats the index as out of date, `indexInSync`.) -/
-theorem annotate_comment_inv (lines : List (List String)) (t t' : T) (h : annotate true lines t = .ok t') :
-    t'.tipNames.Perm t.tipNames ∧ t'.noSingle = t.noSingle := by
-  unfold annotate at h
-  split at h
-  · cases h
-  · exact annotateLoop_comment_inv t lines t t' h
-
-/-! ### AddBipartition (model `addBipAt`, tied exactly on every generated case) -/
-
-/-- the refusal clause of `AddBipartition`: fewer than two branches, or all but at most one of the
-    node's branches ("the bipartition already exists") -/
-theorem addBip_refuses (isRoot : Bool) (S : List Nat) (len sup : Rat) (t : T)
-    (h : S.length ≤ 1 ∨ t.kids.length + (if isRoot then 0 else 1) ≤ S.length + 1) :
-    (match addBipNode isRoot S len sup t with | .err => true | _ => false) = true := by
-  obtain ⟨d, p, k⟩ := t
-  have hl : (if isRoot then k.map some else Gotree.C05.insertAt (k.map some) p (none : Option (EdgeD × T))).length =
-      k.length + (if isRoot then 0 else 1) := by
-    cases isRoot <;> simp [insertAt_length]
-  simp only [T.kids_node] at h
-  simp only [addBipNode]
-  rw [if_pos]
-  simp only [hl, decide_eq_true_eq, Bool.or_eq_true]
-  rcases h with h | h
-  · exact Or.inl h
-  · exact Or.inr h
-
-
-/-- ★ what `AddBipartition` computes at its node: the children are split into those that stay (`A`) and
-    those grouped below the new node (`B`, re-attached by fresh branches that keep length, support and
-    p-value, each with its parent as last neighbour); either the new node hangs below n as its last child
-    (`inner`), or — the parent's branch being among the selected ones — n hangs below the new node as ITS last
-    child (`outer`).  Nothing is lost and nothing is duplicated: `A ++ B` is a permutation of the children. -/
-theorem addBip_node_spec (isRoot : Bool) (S : List Nat) (len sup : Rat) (d : NodeD) (p : Nat) (k : Kids)
-    (hnd : S.Nodup) :
-    match addBipNode isRoot S len sup (.node d p k) with
-    | .err => True
-    | .inner n' => ∃ (A B : Kids) (pp m : Nat), (A ++ B).Perm k ∧
-        n' = .node d pp (A ++ [(⟨len, sup, NIL, [], -1⟩,
-          .node ⟨"", []⟩ m (B.map fun ec => (freshE ec.1, reparent ec.2)))])
-    | .outer n2 => ∃ (A B : Kids) (pp : Nat), (A ++ B).Perm k ∧
-        n2 = .node ⟨"", []⟩ pp ((B.map fun ec => (freshE ec.1, reparent ec.2)) ++
-          [(⟨len, sup, NIL, [], -1⟩, .node d A.length A)]) := by
-  have key : ∀ sel, S.mapM (fun i => (if isRoot then k.map some else Gotree.C05.insertAt (k.map some) p (none : Option (EdgeD × T)))[i]?) = some sel →
-      ((dropSlots S 0 (if isRoot then k.map some else Gotree.C05.insertAt (k.map some) p (none : Option (EdgeD × T)))).filterMap id ++
-        sel.filterMap id).Perm k := by
-    intro sel hsel
-    have hk := (pick_drop_perm S _ sel hnd hsel).filterMap id
-    rwa [ng_filterMap, List.filterMap_append] at hk
-  cases hres : addBipNode isRoot S len sup (.node d p k) with
-  | err => trivial
-  | inner n' =>
-    simp only
-    unfold addBipNode at hres
-    cases isRoot <;> simp only [Bool.false_eq_true, if_false, if_true] at hres key <;>
-    · split at hres
-      · cases hres
-      · split at hres
-        · cases hres
-        · rename_i sel hsel
-          split at hres
-          · cases hres
-          · injection hres with hres
-            subst hres
-            exact ⟨_, _, _, _, key sel hsel, rfl⟩
-  | outer n2 =>
-    simp only
-    unfold addBipNode at hres
-    cases isRoot <;> simp only [Bool.false_eq_true, if_false, if_true] at hres key <;>
-    · split at hres
-      · cases hres
-      · split at hres
-        · cases hres
-        · rename_i sel hsel
-          split at hres
-          · injection hres with hres
-            subst hres
-            exact ⟨_, _, _, key sel hsel, rfl⟩
-          · cases hres
-
-/-- ★ `AddBipartition` keeps the tips: for distinct slots, a successful call at any node of any tree leaves
-    the tip names as they were (as a multiset) -/
-theorem addBip_tips (S : List Nat) (len sup : Rat) (p : List Nat) (t t' : T) (hnd : S.Nodup)
-    (h : addBipAt S len sup p t = some t') : t'.tipNames.Perm t.tipNames := by
-  cases p with
-  | nil =>
-    obtain ⟨d, pp, k⟩ := t
-    have hn := addBipNode_leaves true S len sup d pp k hnd
-    simp only [addBipAt] at h
-    split at h
-    · rename_i n' hres
-      rw [hres] at hn
-      simp only [Option.some.injEq] at h; subst h
-      obtain ⟨h1, h2, _, _, h5⟩ := hn
-      obtain ⟨h6, h7⟩ := h5 rfl
-      unfold T.tipNames
-      simp only [T.kids_node, beq_iff_eq, h6, h7, if_false, List.nil_append]
-      exact h1
-    · cases h
-  | cons i q =>
-    obtain ⟨a1, a2, a3⟩ := addBipAt_inv S len sup hnd i q t t' h
-    unfold T.tipNames
-    rw [a3, a2]
-    exact List.Perm.append_left _ a1
-
-/-- a node `x` with four children below the root: the two branches of `b c` grouped below `x`; the parent's
-    branch and `d` grouped (the new node takes x's place as the LAST child of the root, x hangs below it);
-    the same with the slots in the other order (order of the new node's children = order of the slots) -/
-def bipEx : T := T.node ⟨"r", []⟩ 0 [(EdgeD.blank, T.leaf "a"),
-  (⟨2, 1/2, NIL, ["c"], 7⟩, T.node ⟨"x", []⟩ 0 [(EdgeD.blank, T.leaf "b"), (EdgeD.blank, T.leaf "c"), (EdgeD.blank, T.leaf "d"), (EdgeD.blank, T.leaf "e")]),
-  (EdgeD.blank, T.leaf "f")]
-
-example : ((addBipAt [1, 2] 1 (3/4) [1] bipEx).map (·.tipNames)) = some ["a", "d", "e", "b", "c", "f"] := by decide +kernel
-example : ((addBipAt [0, 3] 1 (3/4) [1] bipEx).map (·.tipNames)) = some ["a", "f", "d", "b", "c", "e"] := by decide +kernel
-example : ((addBipAt [3, 0] 1 (3/4) [1] bipEx).map (·.nodeNames)) = some ["r", "a", "f", "", "d", "x", "b", "c", "e"] := by decide +kernel
-
-/-! ### facts about the SOURCE the models assume, regenerated on every run (harness/c03/extract.go) -/
-
-/-- The table regenerated from tree/*.go of the working tree (calls, assigned fields, degree tests of 51
-    functions: enumerations, degree predicates, pointer helpers, anchored edits) is the reviewed one. -/
-theorem source_facts_check : Gotree.Gen.C03.facts = reviewedFacts := by decide
-
-/-- What the models take from it: the observers (five enumerations, `Tip`, `Nneigh`, `Rooted`, the two
-    Newick writers) assign no field of the tree — observing a step does not change it —; each
-    enumeration goes through its own recursion only (F8 was `internalEdgesRecur` continuing through
-    `edgesRecur`); the degree constants are those of `isTipAt`, `T.rooted`, `firstDeg3`, `resolve`,
-    `removeSingle` and of the transliterated branch recursions. -/
-theorem source_observers_check :
-    observersPure Gotree.Gen.C03.facts = true ∧ recursionsClosed Gotree.Gen.C03.facts = true ∧
-      degreeConstants Gotree.Gen.C03.facts = true := by decide
-
-/-- the three predicates are not vacuous: the pinned `internalEdgesRecur` (calling `edgesRecur`), an
-    enumeration that stores, and a `Tip` that tests `<= 1` are each refused -/
-example :
-    recursionsClosed [⟨"Tree.internalEdgesRecur", true, ["edgesRecur"], [], [(">=", 2)]⟩] = false ∧
-    observersPure [⟨"Tree.Edges", true, ["edgesRecur"], ["br"], []⟩] = false ∧
-    degreeConstants [⟨"Node.Tip", true, [], [], [("<=", 1)]⟩] = false := by decide
 
 end Gotree.C03
